@@ -14,9 +14,9 @@ for log in sys.argv[1:]:
         if "demo_base_exit" not in f:
             print("skip", name, kv); continue
         src = None
-        mm = re.match(r"(C\d+)_M2_(\d+)", name)
+        mm = re.match(r"(C\d+)_M([23])_(\d+)", name)
         if mm:
-            src = "/tmp/wt-%s/MUT2/%s" % mm.groups()
+            src = "/tmp/wt-%s/MUT%s/%s" % mm.groups()
         else:
             mm = re.match(r"(C\d+)_(\d+)", name)
             src = "/tmp/wt-%s/MUT/%s" % mm.groups()
